@@ -15,6 +15,9 @@ def run(ctx):
     # timed branches in-process, and every execution terminates (executor theorems C07X_*)
     from harness import comp_executor
     comp_executor.run_prop(ctx, "C07", n_quick=150, n_thorough=4000)
+    # timers firing at the very instant other branches park or finish (re-submission racing with the decision)
+    for i in range(ctx.scale(200, 4000)):
+        comp_executor.one(ctx, "C07", comp_executor.gen_timer_race(ctx.rng), ctx.rng.randrange(1 << 30), component="executor.timer_race")
 
 
 def search(ctx):
